@@ -1,0 +1,16 @@
+//go:build verif
+
+package index
+
+import "github.com/lindb/lindb/series/metric"
+
+// Verification export for property C11 (container-boundary region of the query check).
+// VerifC11SetSeriesSequence stores seq as the last series id handed out for the metric in the
+// sequence cache that createSeriesID consults first: the next NEW series of the metric gets the
+// id seq+1. Nothing else changes (existing series keep their ids; after a reopen the cache is empty
+// and createSeriesID continues after the largest id of the metric, as always). The harness uses it
+// to place a handful of series on both sides of a roaring container boundary (65535 | 65536 ...)
+// instead of creating 65536 series.
+func VerifC11SetSeriesSequence(db MetricIndexDatabase, metricID metric.ID, seq uint32) {
+	db.(*metricIndexDatabase).sequenceCache.Add(metricID, seq)
+}
